@@ -1,6 +1,7 @@
 import Proofs.OalExpr
 import Proofs.OalStmt
 import Gen.OalPrec
+import Proofs.OalLayout
 
 /-!
   C07 — OAL parsing follows the precedence table and ignores layout.   (TOKEN level)
@@ -282,5 +283,29 @@ example : BlockEnd [tk .END_IF "end if", semi] := blockEnd_cons _ _ rfl
 example : stmtGrammar.length = 101 ∧ exprGrammar.length = 66 := by decide
 
 end examples
+
+
+/-! ## layout at CHARACTER level (model: the character-level lexer of C13/C08, PyxModel/Oal/Lex.lean, over the
+    GENERATED rule table).  Lexemes written one after the other with ANY layout between them — non-empty
+    mixes of blank, tab, CR, LF, block comments and `//` comments; the layout before the first and after the last
+    lexeme may be empty — are returned by the lexer exactly, in order, with their kinds: no token is split,
+    merged or swallowed.  Together with `stmt_roundtrip` (token level) this is the statement's "with any
+    whitespace, line breaks, comments … parses back to exactly that tree" for the modelled lexer and parser.
+    Side conditions are lexical facts of the language: the bare word `end` is not a lexeme (`end`+space+`if` is one
+    token), a `/` token is not directly followed by a separator starting with `/`, a namespace and its `::`
+    are one fused unit.  The tight variant (no separator where the next character cannot extend the token) is NOT
+    proved; tight layouts are covered by the correspondence runs only. -/
+
+theorem layout_irrelevant (sep0 : List Char) (items : List (List Char × List Char × List Char))
+    (h0 : Pyx.OalLex.Layout0 sep0) (h : Pyx.OalLex.ItemsOk items) :
+    (Pyx.OalLex.lex (sep0 ++ Pyx.OalLex.render items)).map (fun t => (t.kind, t.lexeme)) =
+      items.map (fun i => (i.1, i.2.1)) :=
+  Pyx.OalLex.layout_irrelevant sep0 items h0 h
+
+theorem layout_irrelevant_units (sep0 : List Char) (units : List (Pyx.OalLex.Item × List Char))
+    (h0 : Pyx.OalLex.Layout0 sep0) (h : Pyx.OalLex.UnitsOk units) :
+    (Pyx.OalLex.lex (sep0 ++ Pyx.OalLex.renderUnits units)).map (fun t => (t.kind, t.lexeme)) =
+      (units.map (fun u => u.1.toks)).flatten :=
+  Pyx.OalLex.layout_irrelevant_units sep0 units h0 h
 
 end PyxProps.C07
